@@ -438,6 +438,12 @@ func run(c *fw.Ctx) {
 		runLineage(c, l, "witness")
 		sample = append(sample, l)
 	}
+	for i, l := range jdkLineages() {
+		runLineage(c, l, "jdk-systematic")
+		if i%3 == 0 {
+			sample = append(sample, l)
+		}
+	}
 	nl := c.N(3000, 100000)
 	want := c.N(250, 2000)
 	for i := 0; i < nl; i++ {
@@ -447,7 +453,7 @@ func run(c *fw.Ctx) {
 		if i < 4 {
 			c.Sample("C15 pom " + l.Encode())
 		}
-		if len(sample) < want+12 && !m.Wild {
+		if len(sample) < want+80 && !m.Wild {
 			sample = append(sample, l)
 		}
 	}
@@ -466,7 +472,8 @@ func main() {
 		ID: "C15",
 		Rule: "POM lineages generated from an AST (project, up to 4 ancestors, up to 3 BOMs with a shared parent; chained/overriding properties, " +
 			"project.* built-ins, import scope, profiles by default/JDK/OS, exclusions, scope, optional, type, classifier), valid for Maven unless one of the " +
-			"finding classes is switched on (30% of lineages); a small-scope exhaustive family (where a version/scope/property is declared); property tables " +
+			"finding classes is switched on (30% of lineages); a small-scope exhaustive family (where a version/scope/property is declared); a systematic family of " +
+			"<jdk> values and ranges around the running JDK (patch/minor/major -1/0/+1, 1-5 components, Maven's prefix forms) beside an activeByDefault sibling; property tables " +
 			"(cycles, self references, long chains, doubling, odd syntax, raw bytes). A case is non-trivial when the library's result is distinct and non-empty.",
 		Exec:     exec1,
 		Run:      run,
